@@ -12,7 +12,8 @@ cp "$REPO/go.sum" harness/go.sum
 rm -rf .work/gen.tmp && mkdir -p .work/gen.tmp
 ./.work/bin/harness htmlvocab > .work/htmlvocab.json
 ./.work/bin/harness encodings > .work/encodings.json
-./.work/bin/extract -repo "$REPO" -out .work/gen.tmp -htmlvocab .work/htmlvocab.json -encodings .work/encodings.json
+./.work/bin/harness filters > .work/filters.json
+./.work/bin/extract -repo "$REPO" -out .work/gen.tmp -htmlvocab .work/htmlvocab.json -encodings .work/encodings.json -filters .work/filters.json
 mkdir -p lean/TabulaModel/Gen
 for f in .work/gen.tmp/*.lean; do
   cmp -s "$f" "lean/TabulaModel/Gen/$(basename "$f")" || cp "$f" "lean/TabulaModel/Gen/$(basename "$f")"
